@@ -503,6 +503,15 @@ func init() {
 	})
 
 	// ---------------------------------------------------------- time
+	// the number of CPUs the process may use: a fresh symbolic value per read
+	cpus := func(m *Machine, fn *ssa.Function, a []Value) Value {
+		m.nameCount["$cpus"]++
+		n := m.ctx.Var(fmt.Sprintf("$cpus.%d", m.nameCount["$cpus"]), 64)
+		m.addPC(m.ctx.And(m.ctx.Ule(m.ctx.BV(1, 64), n), m.ctx.Ule(n, m.ctx.BV(64, 64))))
+		return n
+	}
+	reg("runtime.GOMAXPROCS", cpus)
+	reg("runtime.NumCPU", cpus)
 	reg("time.Now", func(m *Machine, fn *ssa.Function, a []Value) Value {
 		// wall clock reading with monotonic bit set, as the real Now returns
 		m.nameCount["$now"]++
